@@ -70,6 +70,8 @@ def _family(tier):
         ([('a', 'INPUT', ()), ('b', 'INPUT', ()), ('u', 'AND', ('a', 'b')), ('v', 'OR', ('a', 'b')), ('y', 'XOR', ('u', 'v')), ('x', 'NAND', ('a', 'a'))], ['y', 'x']),
         # a cut leaf (b) that itself reads an inner gate (o1) of the cone over that cut (F35)
         ([('a', 'INPUT', ()), ('z1', 'INPUT', ()), ('z2', 'INPUT', ()), ('o1', 'NOT', ('a',)), ('b', 'XOR', ('o1', 'z1', 'z2')), ('t', 'AND', ('o1', 'b')), ('u', 'OR', ('o1', 'b')), ('o2', 'XOR', ('t', 'u'))], ['o2', 'b']),
+        # a cone with two complementary outputs, neither computed by a NOT gate: the replacement has as many gates as the region and takes over its labels
+        ([('a', 'INPUT', ()), ('b', 'INPUT', ()), ('c', 'INPUT', ()), ('e', 'INPUT', ()), ('g0', 'AND', ('a', 'c')), ('g1', 'NOR', ('c', 'b')), ('g2', 'OR', ('g0', 'b')), ('g3', 'NXOR', ('c', 'g2')), ('ng', 'XOR', ('c', 'g2')), ('p2', 'GT', ('g3', 'e')), ('p3', 'GEQ', ('ng', 'e'))], ['p2', 'p3']),
         # a later cone shares an inner gate of a cone that was replaced
         ([('x0', 'INPUT', ()), ('x1', 'INPUT', ()), ('x2', 'INPUT', ()), ('g0', 'XOR', ('x2', 'x0')), ('g1', 'NOR', ('x2', 'x2')), ('g2', 'NAND', ('x1', 'g1')), ('g3', 'NOR', ('x0', 'x0')), ('g4', 'NOR', ('x1', 'g1')), ('g5', 'NOT', ('g2',)), ('g6', 'LT', ('g4', 'g2'))], ['g6']),
         # a cone output equal to a leaf that other gates read
